@@ -393,8 +393,14 @@ class RepoInterp:
             params = params[1:]
         for p, v in zip(params, args):
             sub.env[p] = v
+        if a.vararg is not None:
+            sub.env[a.vararg.arg] = K(tuple(args[len(params):]))
+        known = set(params) | {x.arg for x in a.kwonlyargs}
         for k, v in kwargs.items():
-            sub.env[k] = v
+            if k in known or a.kwarg is None:
+                sub.env[k] = v
+        if a.kwarg is not None:
+            sub.env[a.kwarg.arg] = R("dict", items=tuple((K(k), v) for k, v in kwargs.items() if k not in known))
         for p, d in callee.defaults().items():
             if p not in sub.env:
                 sub.env[p] = self.interp.eval(d, sub)
